@@ -42,6 +42,12 @@ def run(tape, scenario):
     n = 2 + tape.draw("c25/nterm", 11)
     lo = 1000
     size = 3 * n + 4 + tape.draw("c25/range-extra", 8)
+    # station addresses are 16 bit unsigned; the datagram header carries them in a signed
+    # field, so a configured range that reaches 0x8000 is its own case (today a request for
+    # such an address fails while the frame is assembled: nothing may be handed out wrongly)
+    high_range = tape.chance("c25/range-reaches-0x8000", 8)
+    if high_range:
+        lo = 0x8000 - tape.draw("c25/range-below-0x8000", size)
     hi = lo + size - 1
     writes = []         # (terminal index, value, set of addresses held so far by anyone)
     held_ever = set()
@@ -105,9 +111,10 @@ def run(tape, scenario):
     env.collide["rand/ethercat"] = collide
     # in some runs a send now and then fails with ENOBUFS (the caller gets OSError; whatever
     # fails, no address may be handed out wrongly)
-    send_faults = tape.chance("cfg/sendto-fails", 20)
+    truncation = tape.chance("cfg/truncated-frames", 15)
+    send_faults = tape.chance("cfg/sendto-fails", 20) or truncation
     connected = [False]
-    if send_faults:
+    if send_faults and not truncation:
         env.bus.send_fault = lambda: connected[0] and tape.chance("fault/sendto-enobufs", 4)
 
     if parallel:
@@ -145,6 +152,10 @@ def run(tape, scenario):
 
     async def body():
         connected[0] = True
+        if truncation:
+            # ... or a response comes back cut short now and then (the callers of that
+            # frame get the decoding error)
+            env.bus.faults.truncate = 4
         jobs = []
         if scenario in ("init", "mixed"):
             which = [k for k in range(n) if scenario == "init" or tape.chance("c25/init-this", 60)]
@@ -199,8 +210,11 @@ def run(tape, scenario):
             viol("final-addresses-collide",
                  f"terminal {k} ends at {terms[k].station}, so do terminals {others}")
     for m, tn, txt in loop_exc:
-        if send_faults and tn == "OSError":
-            continue        # process_packet passes the failed send on to its callers
+        if send_faults and tn in ("OSError", "error"):
+            continue        # process_packet passes the failed send/decoding on to its callers
+        if high_range and tn == "error":
+            world.count("c25/master-cannot-encode-address-above-0x7fff")
+            continue
         viol("library-task-died", f"{m}: {tn}: {txt}", exception=tn)
         break
     world.count("c25/address-writes", len(writes))
